@@ -12,13 +12,23 @@ RULE = ("Hypothesis-generated chemical systems (1-3 initial solutions; optional 
         "U units (mol/mmol/umol/g/mg/ug per kgw, eq/meq/ueq for Alkalinity, per-constituent units, as, gfw; factors from the database "
         "text), U1 documented spellings of one unit (bitwise), W water mass and all extensive amounts x f (1e-3..1e3), N renumbering, "
         "P order of blocks / constituents, R duplicated identical blocks, M mixture split / reordered / with identical copies, "
-        "S SOLUTION_SPREAD row vs SOLUTION block; both texts are run on fresh instances with KNOBS -convergence_tolerance 1e-12 and "
+        "S SOLUTION_SPREAD row vs SOLUTION block; both texts are run on fresh instances with KNOBS -convergence_tolerance 1e-13 and "
         "all USER_PUNCH doubles are compared row by row. Non-trivial = both runs complete, the two texts differ, the system has >= 3 "
         "constituents (for U: >= 2 different units in the pair; for U1: >= 1 respelled unit); distinct by SHA-256 of the case")
 ASSUMPTIONS = ["gram formula weights and formula weights are read from the database text by vp.dbparse (independent of the engine)",
                "unit spellings are the ones of the PHREEQC manual (abbreviation table, SOLUTION units paragraph, ppt/ppm/ppb, case-insensitivity)",
-               "rows of redox-unpoised batch reactions are compared without pe and without species coupled through e- (DESIGN 4, rule 7)",
-               "extensive amounts are compared relative to max(|value|, 1e-3 x reactant inventory, 1e-6 mol/kgw x water)"]
+               "rows whose pe is not fixed by the input (batch reactions without an O2(g) buffer, initial exchange/surface/gas calculations) are "
+               "compared without pe and without species coupled through e- (DESIGN 4, rule 7)",
+               "solver tolerance added to the property's 1e-8 (DESIGN 4, rule 2): a mass balance is accepted with a residual sqrt(n x 1e-25 mol) "
+               "(model.cpp residuals(), MIN_TOTAL) -> relative uncertainty 5 sqrt(n_sys 1e-25)/n of an element total, 15 sqrt(S 1e-25/kgw)/(2.3 "
+               "max([H+],[OH-])) of a computed pH; the accepted pH / surface-potential difference of a row enters the tolerance of the "
+               "values that depend on it (12 dpH for logs, 28 dpH relative); values of elements whose amount in solution is below that "
+               "resolution are not compared",
+               "extensive amounts are compared relative to max(|value|, 1e-3 x reactant inventory, 1e-6 mol/kgw x water); molalities to "
+               "max(|value|, 1e-12); surface charge density to max(|value|, F x sites / area)",
+               "kinetic rate laws are constants (k x M0): other laws agree only to the integrator's -tol (C12), not to 1e-8",
+               "pressures of Peng-Robinson gas phases (GAS_P of fixed-volume phases, PR_P, PR_PHI, GAS_VM) are lagged iterates and are "
+               "compared through SI(gas) and GAS() moles instead"]
 TECHNIQUE = "property-based testing (Hypothesis): metamorphic two-run relation, exact unit factors from the database text"
 LEVEL_TEXT = ("Exploration: thousands of generated system/transformation pairs per run; every punched result (pH, pe, mu, totals, "
               "molalities, activities, SI, reactant amounts, gas pressures, surface charge/potential) must agree to 1e-8 relative "
@@ -28,7 +38,6 @@ SHARDS = {"quick": 4, "thorough": 4}
 BUDGET = {"quick": 2400, "thorough": 36000, "replay": 1}
 
 REL = 1e-8
-INITIAL_STATES = ("i_soln", "i_exch", "i_surf", "i_gas")
 
 
 def prepare(tier):
@@ -310,6 +319,7 @@ def make_views(case):
     elif fam == "N":
         vB["num"] = {k: {int(o): int(n) for o, n in pairs} for k, pairs in xf["num"].items()}
         info["solmap"] = vB["num"]["solution"]
+        info["mixmap"] = vB["num"].get("mix", {})
     elif fam == "P":
         vB["bkeys"] = xf["bkeys"]
         vB["ikeys"] = xf["ikeys"]
@@ -416,7 +426,6 @@ def check_case(case, ctx):
     worst = worst_ph = 0.0
     worst_expr = ""
     skipped_noise = 0
-    site_moles = sum(i["moles"] for stg in (m, st2 or {}) for i in (stg.get("su") or {}).get("sites", []))
     site_sigma = 0.0
     for stg in (m, st2 or {}):
         su = stg.get("su")
@@ -443,9 +452,11 @@ def check_case(case, ctx):
             stg = m if sim == 1 else st2
             direct = len(stg["src"]) == 1 and stg["src"][0][1] == 1.0
             if state == "react":
-                want = info["solmap"].get(stg["src"][0][0]) if direct else None
-                if direct and solA == stg["src"][0][0] and solB != want:
-                    raise Violation("labels", "row %r: solution label %r in A, %r in B, renumbering says %r" % (keyA, solA, solB, want))
+                old = stg["src"][0][0] if direct else stg["mixn"]
+                want = (info["solmap"] if direct else info["mixmap"]).get(old, old)
+                if solA == old and solB != want:
+                    raise Violation("labels", "row %r: %s label %r in A, %r in B, renumbering says %r" % (
+                        keyA, "solution" if direct else "mix", solA, solB, want))
         imu = [i for i, o in enumerate(obs) if o[0] == "MU"][0]
         ih = [i for i, o in enumerate(obs) if o[0] == 'MOL("H+")'][0]
         ioh = [i for i, o in enumerate(obs) if o[0] == 'MOL("OH-")'][0]
@@ -470,15 +481,22 @@ def check_case(case, ctx):
                 # phases: conservative); its accepted residual 5 sqrt(n_sys 1e-25) is an absolute uncertainty of the
                 # moles in solution
                 e = 0.0
-                for v in (va, vb):
-                    n = abs(v[i]) if isinstance(v[i], float) else 0.0
-                    nsys = max(abs(v[i + 1]) if isinstance(v[i + 1], float) else 0.0, n)
-                    e = max(e, 1.0 if n < 1e-30 else min(1.0, 5.0 * math.sqrt(nsys * 1e-25) / n))
-                    if not poised and o[3][0] in ("C", "S") and state != "i_soln":
-                        # un-poised rows: the electron balance is the ~1e-14 mol/kgw rounding difference of total H and O;
-                        # that many electrons can reduce the same amount of C(4) / S(6)
-                        w = abs(v[iw]) if isinstance(v[iw], float) else 1.0
-                        e = max(e, 1.0 if n < 1e-30 else min(1.0, 1e-13 * w / n))
+                ns = [abs(v[i]) if isinstance(v[i], float) else 0.0 for v in (va, vb)]
+                ns[1] = ns[1] / row_ext if row_ext else ns[1]
+                if max(ns) < 1e-30:
+                    pass                         # the element is absent from both solutions: zeros compare as they are
+                elif min(ns) < 1e-30 and max(ns) > 1e-14 * max(kgw, 1e-30):
+                    pass                         # present in one view only: a real disagreement, compared strictly
+                else:
+                    for v in (va, vb):
+                        n = abs(v[i]) if isinstance(v[i], float) else 0.0
+                        nsys = max(abs(v[i + 1]) if isinstance(v[i + 1], float) else 0.0, n)
+                        e = max(e, 1.0 if n < 1e-30 else min(1.0, 5.0 * math.sqrt(nsys * 1e-25) / n))
+                        if not poised and o[3][0] in ("C", "S") and state != "i_soln":
+                            # un-poised rows: the electron balance is the ~1e-14 mol/kgw rounding difference of total H and
+                            # O; that many electrons can reduce the same amount of C(4) / S(6)
+                            w = abs(v[iw]) if isinstance(v[iw], float) else 1.0
+                            e = max(e, 1.0 if n < 1e-30 else min(1.0, 1e-13 * w / n))
                 e = max(e, carry.get(o[3][0], 0.0))
                 eps_of[o[3][0]] = e
                 if state != "i_soln":
@@ -507,6 +525,12 @@ def check_case(case, ctx):
             tolpsi = (REL + 28.0 * ctxv["nu"]) * max(abs(va[ipsi[0]]), abs(vb[ipsi[0]]), 0.0257)
             ctxv["nu_psi"] = 4.0 * 38.92 * min(dpsi, tolpsi)
         for i, (expr, kind, poised_only, oels) in enumerate(obs):
+            if info["bitwise"]:
+                # the same arithmetic is repeated: every value, poised or not, must be identical
+                a, b = va[i], vb[i]
+                if a != b and not (a != a and b != b):
+                    raise Violation("bitwise", "row %r %s: %r (A) != %r (B) although only the spelling of units differs" % (keyA, expr, a, b))
+                continue
             if poised_only and not poised:
                 continue
             ctxv["eps_el"] = 3.0 * sum(eps_of.get(e, 0.0) for e in oels)
@@ -521,10 +545,6 @@ def check_case(case, ctx):
                 # without counter-ions one of the two sets consists of trace species at the solver's resolution
                 continue
             a, b = va[i], vb[i]
-            if info["bitwise"]:
-                if a != b and not (a != a and b != b):
-                    raise Violation("bitwise", "row %r %s: %r (A) != %r (B) although only the spelling of units differs" % (keyA, expr, a, b))
-                continue
             ok, ratio = close(a, b, kind, row_ext, ctxv)
             if not ok:
                 raise Violation("invariance:" + kind,
@@ -535,7 +555,7 @@ def check_case(case, ctx):
             if kind == "pH":
                 worst_ph = max(worst_ph, ratio)
     # ---- classification
-    classes = ["fam=" + fam, "kind=" + m["kind"], "%s:%s" % (fam, m["kind"])]
+    classes = ["%s:%s" % (fam, m["kind"]), "db=" + m["db"]]
     nrc = sum(1 for k in ("eq", "rx", "ex", "su", "gas", "kin") if m.get(k))
     classes.append("reactants=%d" % nrc)
     classes.append("solutions=%d" % len(m["sols"]))
@@ -553,21 +573,34 @@ def check_case(case, ctx):
         classes.append("dev<=1e%d_tol" % max(-8, min(0, int(math.ceil(math.log10(worst))))))
     if skipped_noise:
         classes.append("values_below_solver_resolution_skipped")
-    if worst_ph > 0:
-        classes.append("pHdev<=1e%d_tol" % max(-8, min(0, int(math.ceil(math.log10(worst_ph))))))
     uu = units_used(m, specA) | units_used(m, specB)
     differ = tA != tB
     nt = differ and n_constituents(m) >= 3
     if fam == "U":
         nt = nt and len(uu) >= 2
         for u in sorted(units_used(m, specB)):
-            ctx.event("unitB=" + u)
+            ctx.event("U:unit=" + u)
         if any((p or {}).get("as") for s in specB for p in (s.get("per") or [])):
             classes.append("U:as")
         if any((p or {}).get("gfw") for s in specB for p in (s.get("per") or [])):
             classes.append("U:gfw")
         if any(c["el"] == "Alkalinity" for s in m["sols"] for c in s["comps"]):
             classes.append("U:alkalinity")
+    if fam == "W":
+        classes.append("W:f=1e%d..1e%d" % (math.floor(math.log10(case["xf"]["f"])), math.floor(math.log10(case["xf"]["f"])) + 1))
+    if fam == "M":
+        if info.get("sol_scale"):
+            classes.append("M:fraction_vs_scaled_solution")
+        if any(any(c) for c in case["xf"]["copies"]):
+            classes.append("M:identical_copy")
+        if any(len(p) > 1 for p in case["xf"]["parts"]):
+            classes.append("M:self_mix_split")
+    if fam == "N":
+        olds = sorted(info["solmap"])
+        if [info["solmap"][o] for o in olds] != sorted(info["solmap"][o] for o in olds):
+            classes.append("N:order_of_solutions_changes")
+    if fam == "S" and any(len(g) > 1 for g in G.spread_groups(m, specB)):
+        classes.append("S:several_rows_in_one_block")
     if not differ:
         classes.append("identical_texts")
     return {"nontrivial": bool(nt), "classes": classes, "worst": [worst, worst_expr]}
